@@ -8,7 +8,7 @@ CompositeDefineNode::CompositeDefineNode(const Token &token, const Token &name, 
     : Node(token), name(name), initBlock(initBlock) {}
 
 std::unique_ptr<NodeResult> CompositeDefineNode::evaluate(PSC::Context &ctx) {
-    if (ctx.isIdentifierType(name, false))
+    if (ctx.isIdentifierType(name))
         throw PSC::RedefinitionError(token, ctx, name.value);
     
     PSC::CompositeTypeDefinition definition(name.value, initBlock);
